@@ -155,6 +155,9 @@ func (s *node) casNextOffset(h int, old, val uint32) bool {
 //}
 
 func (s *Skiplist) randomHeight() int {
+	if h := y.VerifHeight(); h > 0 {
+		return h
+	}
 	h := 1
 	for h < maxHeight && z.FastRand() <= heightIncrease {
 		h++
